@@ -557,8 +557,60 @@ def run_slopes_param(rec, case):
         rec.violation("C07:raises:CosmoLikelihood", "raised %r" % (e,), inp, traceback.format_exc(limit=4))
 
 
-STREAMS = {1: run_sample, 2: run_terms, 3: run_slopes_param, 4: run_sample}   # 4: run_sample in its systematic-error mode
-COUNTS = {"quick": {1: 280, 2: 60, 3: 60, 4: 90}, "thorough": {1: 4200, 2: 700, 3: 700, 4: 1400}}
+def run_los_populations(rec, case):
+    """CosmoLikelihood.likelihood(args) with several sampled line-of-sight populations: the value is the sum of the lenses evaluated alone,
+    and a lens' term does not move when only ANOTHER population's parameters move (sharp populations: sigma = 0 fixed by the bounds' centre)."""
+    rng = rng_case(case)
+    npop = int(rng.integers(2, 4))
+    dists = [str(rng.choice(["GAUSSIAN", "GEV"])) for _ in range(npop)]
+    nl = int(rng.integers(2, 5))
+    lenses, assign = [], []
+    for i in range(nl):
+        t = str(rng.choice(["DdtGaussian", "DdtLogNorm", "DdtDdGaussian"]))
+        k = int(rng.integers(npop)) if i >= npop else i          # every population has a lens first, then random
+        lenses.append(dict(z_lens=0.3 + 0.05 * i, z_source=1.2 + 0.1 * i, likelihood_type=t, global_los_distribution=k, **lens_kwargs(t, rng, nkin=1)))
+        assign.append(k)
+    gm = dict(los_sampling=True, los_distributions=dists)
+    lo = [dict(mean=-0.1, sigma=0.0, xi=-0.2) for _ in dists]; hi = [dict(mean=0.1, sigma=0.1, xi=0.2) for _ in dists]
+    kb = dict(kwargs_lower_cosmo=dict(h0=0, om=0), kwargs_upper_cosmo=dict(h0=200, om=1), kwargs_lower_los=lo, kwargs_upper_los=hi)
+
+    def vec(means):
+        a = [70.0, 0.3]
+        for d, m in zip(dists, means):
+            a += [m, 0.0] + ([0.1] if d == "GEV" else [])
+        return a
+    means = [float(x) for x in rng.uniform(-0.05, 0.05, npop)]
+    inp = dict(case=list(case), types=[l["likelihood_type"] for l in lenses], los_distributions=dists, assignment=assign, means=means)
+    rec.case(inp, kind="los_populations:n=%d" % npop)
+    try:
+        # (exact distances: an interpolated cosmology would depend on the highest redshift of each sample)
+        cl = CosmoLikelihood(lenses, "FLCDM", gm, kb, interpolate_cosmo=False)
+        singles = [CosmoLikelihood([l], "FLCDM", gm, kb, interpolate_cosmo=False) for l in lenses]
+        rec.check(len(cl.param.param_list()) == len(vec(means)), "C07:los_populations:num_param", "unexpected number of sampled parameters", inp,
+                  cl.param.param_list(), len(vec(means)))
+        np.random.seed(3); v = fscalar(cl.likelihood(vec(means)))
+        parts = []
+        for s1 in singles:
+            np.random.seed(3); parts.append(fscalar(s1.likelihood(vec(means))))
+        rec.check(abs(v - sum(parts)) <= 1e-10 * (sum(abs(x) for x in parts) + 1), "C07:additivity:los_populations",
+                  "CosmoLikelihood.likelihood with several line-of-sight populations is not the sum of the lenses evaluated alone", inp, v, sum(parts))
+        for k in range(npop):
+            m2 = list(means); m2[k] = means[k] + 0.03
+            for i, s1 in enumerate(singles):
+                np.random.seed(3); w = fscalar(s1.likelihood(vec(m2)))
+                if assign[i] != k:
+                    rec.check(w == parts[i], "C07:interference:los_other_population",
+                              "a lens' term moves when only the mean of a line-of-sight population it is NOT assigned to moves",
+                              dict(inp, lens=i, moved_population=k), w, parts[i])
+                else:
+                    rec.check(w != parts[i], "C07:los_populations:own_population_ignored",
+                              "a lens' term does not move when the mean of ITS line-of-sight population moves", dict(inp, lens=i, moved_population=k), w, parts[i])
+    except Exception as e:
+        rec.violation("C07:raises:CosmoLikelihood", "raised %r" % (e,), inp, traceback.format_exc(limit=4))
+
+
+STREAMS = {1: run_sample, 2: run_terms, 3: run_slopes_param, 4: run_sample, 5: run_los_populations}   # 4: run_sample in its systematic-error mode
+COUNTS = {"quick": {1: 280, 2: 60, 3: 60, 4: 90, 5: 25}, "thorough": {1: 4200, 2: 700, 3: 700, 4: 1400, 5: 400}}
 
 
 def main():
